@@ -72,6 +72,20 @@ impl Connection {
         std::mem::take(&mut self.verif_txlog.pkts)
     }
 
+    /// Non-destructive views of what `verif_take_txlog` / `verif_take_txpkts` / `verif_take_new_tokens` would return
+    /// (the simulator's own address-validation ledger reads them before a scenario's tap takes them; C07)
+    pub fn verif_peek_txlog(&self) -> &[String] {
+        &self.verif_txlog.lines
+    }
+
+    pub fn verif_peek_txpkts(&self) -> &[TxPkt] {
+        &self.verif_txlog.pkts
+    }
+
+    pub fn verif_peek_new_tokens(&self) -> &[Vec<u8>] {
+        &self.verif_txlog.new_tokens
+    }
+
     /// Called right after `verif_record_tx_plain` with the position of the finished packet in the buffer
     pub(in crate::connection) fn verif_record_tx_meta(&mut self, start: usize, len: usize, long_header: bool, assumed_ack_eliciting: bool) {
         if !self.verif_txlog.meta_on {
